@@ -150,10 +150,11 @@ def handlePolyFft : Handler
     some (showOptList (Ymq.PolyMul.fromRoots (Ymq.PolyMul.Ctx.new ringsize) (Ymq.PolyMul.natOps n) roots.toList))
   | ["pf_roots_eval", n, a, b] => do
     let n ← parseNat n; let a ← parsePoly n a; let b ← parsePoly n b
-    some (showArr (rootsEval n a b))
-  | ["pf_multi_eval", n, _ringsize, p, pts] => do
-    let n ← parseNat n; let p ← parsePoly n p; let pts ← parsePoly n pts
-    some (showArr (multiEval n p pts))
+    some (showOptList (Ymq.PolyMul.rootsEval (Ymq.PolyMul.natOps n) a.toList b.toList))
+  | ["pf_multi_eval", n, ringsize, p, pts] => do
+    let n ← parseNat n; let ringsize ← parseNat ringsize; let p ← parsePoly n p; let pts ← parsePoly n pts
+    some (showOptList (Ymq.PolyMul.multiEval (Ymq.PolyMul.Ctx.new ringsize) (Ymq.PolyMul.natOps n)
+      p.toList pts.toList))
   | ["pf_eval", n, p, x] => do
     let n ← parseNat n; let p ← parsePoly n p; let x ← parseNat x
     some (toString (eval n p x))
